@@ -4,7 +4,8 @@
       ordinary DataFrame steps (C01's operations) in between.
     - [spark_eval]: the PySpark meaning (validated against PySpark 3.5.9 recordings).
     - [compile]: what sqlframe builds -- a WITH list of named CTEs plus a main SELECT.  CTE names are
-      content hashes in the implementation; here a name IS the content it was hashed from ([node]), so
+      hashes of the query text in the implementation; here a name IS what it was hashed from ([node]:
+      the body with the names it refers to, plus the uuid filters of the WITH list in front of it), so
       "same text => same name" (how common ancestors collide) and "different text => different name"
       (crc32 assumed collision-free inside one query) hold by construction.  [merge] restates
       [_add_ctes_to_expression] (rename + uuid filter on a name collision), [set_operation] restates
@@ -127,6 +128,11 @@ Definition setop_frames (s : bagsem) (L R : frame) : option frame :=
   then Some (mkFrame (cols L) (bagop s (rows L) (rows R)))   (* positional; names of the first operand *)
   else None.
 
+(** an ORDER BY / LIMIT written in an operand of a set operator does not belong to the operand in SQL (it
+    binds to the whole set operation, or does not parse): such an operator node has no meaning here *)
+Definition operand_ok (b : block) : bool :=
+  match b_order b, b_limit b with [], None => true | _, _ => false end.
+
 (** intended meaning of a name = meaning of the text it was hashed from *)
 Fixpoint den (inputs : list frame) (n : node) : option frame :=
   match n with
@@ -134,7 +140,8 @@ Fixpoint den (inputs : list frame) (n : node) : option frame :=
   | NSel _ b _ f => option_map (eval_block b) (den inputs f)
   | NSet _ k d bl fl br fr =>
       match den inputs fl, den inputs fr with
-      | Some L, Some R => setop_frames (sql_sem (k, d)) (eval_block bl L) (eval_block br R)
+      | Some L, Some R => if operand_ok bl && operand_ok br
+                          then setop_frames (sql_sem (k, d)) (eval_block bl L) (eval_block br R) else None
       | _, _ => None
       end
   end.
@@ -155,7 +162,8 @@ Definition eval_body (inputs : list frame) (e : env) (b : node) : option frame :
   | NSel _ blk _ f => option_map (eval_block blk) (resolve inputs e f)
   | NSet _ k d bl fl br fr =>
       match resolve inputs e fl, resolve inputs e fr with
-      | Some L, Some R => setop_frames (sql_sem (k, d)) (eval_block bl L) (eval_block br R)
+      | Some L, Some R => if operand_ok bl && operand_ok br
+                          then setop_frames (sql_sem (k, d)) (eval_block bl L) (eval_block br R) else None
       | _, _ => None
       end
   end.
@@ -338,8 +346,12 @@ Section Compile.
 
   (** side condition on the regenerated facts (decidable; discharged by vm_compute in props/C07.v) *)
   Definition kind_ok (k : opk) : bool := opk_eqb k NO_OP || existsb (opk_eqb k) (reach c).
+  (** the receiver is frozen whenever its open SELECT may carry an ORDER BY or a LIMIT *)
+  Definition freeze_ok (k : opk) : bool :=
+    forallb (fun l => wrap_needed c l (new_kind_k k l) || (claim l <? 6)%Z) (reach c).
   Definition facts_ok : bool :=
-    forallb (fun m => bagsem_eqb (sql_sem (f_flags f m)) (spark_sem m) && kind_ok (f_kind f m)) all_meth
+    forallb (fun m => bagsem_eqb (sql_sem (f_flags f m)) (spark_sem m) && kind_ok (f_kind f m)
+                      && freeze_ok (f_kind f m)) all_meth
     && negb (f_swap f).
 End Compile.
 
